@@ -160,14 +160,15 @@ class Runner:
     # ------------------------------------------------------------ one unit
     def run_unit(self, u, ginfo, extra_flags=(), trace_property=None):
         gd = ginfo['dir']
-        log = os.path.join(gd, 'unit_%s.log' % u.name)
+        safe = re.sub(r'[^\w.@-]', '_', u.name)
+        log = os.path.join(gd, 'unit_%s.log' % safe)
         tmo = u.timeout or (120 if self.tier == 'quick' else 900)
         res = dict(unit=u.name, enforce=u.enforce, replace=u.replace, functions=u.functions, loops=u.loops,
                    bounded=u.bounded, note=u.note, status='error', obligations=0, discharged=0, failed=[],
                    sentinel=None, seconds=0.0, solver='cbmc 6.11.0 --sat-solver cadical', detail='')
         t0 = time.time()
-        linked = 'l_%s.gb' % u.name
-        inst = 'i_%s.gb' % u.name
+        linked = 'l_%s.gb' % safe
+        inst = 'i_%s.gb' % safe
         rc, o, _ = run(['goto-cc', '--function', u.harness] + ginfo['gbs'] + ['-o', linked], gd, 300, log)
         if rc != 0:
             res['detail'] = 'link failed: ' + o[-1500:]
@@ -285,7 +286,7 @@ class Runner:
                                             fn=(s.get('sourceLocation') or {}).get('function'), line=(s.get('sourceLocation') or {}).get('line'))
                                        for s in f['trace'] if s.get('stepType') in ('assignment', 'failure')][-120:])
         os.makedirs(outdir, exist_ok=True)
-        path = os.path.join(outdir, '%s-%s.json' % (u.name, re.sub(r'[^\w.]', '_', fail['obligation'])))
+        path = os.path.join(outdir, '%s-%s.json' % (re.sub(r'[^\w.@-]', '_', u.name), re.sub(r'[^\w.]', '_', fail['obligation'])))
         rep = dict(property=self.prop, unit=u.name, enforce=u.enforce, obligation=fail['obligation'],
                    description=fail['description'], location=fail.get('location'), inputs=inputs,
                    functions=u.functions, cbmc_trace_tail=cbmc_out, native='not-run')
@@ -298,13 +299,15 @@ class Runner:
 
 def native_replay(prop, u, inputs, scratch):
     """build props/<P>/oracle.cpp + the same wrappers natively against the *current* /repo tree and run the unit"""
+    prop = getattr(u, 'origin', None) or prop
     pdir = os.path.join(VERIF, 'props', prop)
     oracle = os.path.join(pdir, 'oracle.cpp')
     if not os.path.exists(oracle):
         return dict(outcome='no-oracle', output='')
     mod = load_prop(prop)
     flags = getattr(mod, 'NATIVE_FLAGS', ['-mavx2'])
-    srcs = getattr(mod, 'NATIVE_SOURCES', [g for g in mod.GROUPS[u.group].cpp])
+    gname = u.group[len(prop) + 1:] if u.group.startswith(prop + '_') and u.group not in mod.GROUPS else u.group
+    srcs = getattr(mod, 'NATIVE_SOURCES', [g for g in mod.GROUPS[gname].cpp if 'forwarders' not in g])
     exe = os.path.join(scratch, 'replay_%s_%s' % (prop, u.group))
     if not os.path.exists(exe):
         cmd = ['g++', '-std=c++17', '-O1', '-g', '-fopenmp', '-DVF_NATIVE', '-fsanitize=address,undefined', '-fno-sanitize-recover=undefined'] + flags + \
@@ -315,7 +318,7 @@ def native_replay(prop, u, inputs, scratch):
         p = subprocess.run(cmd, stdout=subprocess.PIPE, stderr=subprocess.STDOUT)
         if p.returncode != 0:
             return dict(outcome='build-failed', output=p.stdout.decode('utf-8', 'replace')[-3000:])
-    args = [exe, u.name] + ['%s=%d' % (k, v) for k, v in sorted(inputs.items())]
+    args = [exe, u.name.split(':')[-1]] + ['%s=%d' % (k, v) for k, v in sorted(inputs.items())]
     try:
         p = subprocess.run(args, stdout=subprocess.PIPE, stderr=subprocess.STDOUT, timeout=120)
     except subprocess.TimeoutExpired:
@@ -330,6 +333,31 @@ def native_replay(prop, u, inputs, scratch):
     else:
         oc = 'confirmed' if p.returncode < 0 or p.returncode > 3 else 'no-oracle'
     return dict(outcome=oc, output=out[-3000:], cmd=' '.join(args))
+
+
+def import_units(prop, pred):
+    """units (and their groups) of another property that this property's chain depends on; group names get a prefix"""
+    import copy
+    mod = load_prop(prop)
+    groups, units = {}, []
+    for u in mod.UNITS:
+        if not pred(u.name):
+            continue
+        u2 = copy.copy(u)
+        u2.group = prop + '_' + u.group
+        u2.origin = prop
+        u2.name = prop + ':' + u.name
+        if getattr(u, 'cex_unit', None) is not None:
+            c2 = copy.copy(u.cex_unit)
+            c2.group = prop + '_' + c2.group
+            c2.origin = prop
+            u2.cex_unit = c2
+            g = copy.copy(mod.GROUPS[u.cex_unit.group]); g.name = c2.group; groups[c2.group] = g
+        g = copy.copy(mod.GROUPS[u.group])
+        g.name = u2.group
+        groups[u2.group] = g
+        units.append(u2)
+    return groups, units
 
 
 def load_prop(prop):
